@@ -589,6 +589,27 @@ def {}():
                 visited.add( (v, 1) )
                 Q.append( (v, 1) ) # blk_id < method < ... < u < v < ?
 
+    # A top level callee may also be ordered against an update block or
+    # another top level callee only through a chain of constraints, e.g.
+    # M(top_callee) < M(x) < U(blk) where no update block calls x. Walk
+    # the chains from each top level callee and record the end points for
+    # the open-loop scheduler.
+
+    for method in method_is_top_level_callee:
+      for w, nxt in ( (-1, pred), (1, succ) ):
+        visited = { method } | set( equiv[method] if method in equiv else () )
+        Q = deque( visited )
+        while Q:
+          u = Q.pop()
+          for v in nxt[u]:
+            for z in ( equiv[v] if v in equiv else [v] ):
+              if z not in visited:
+                visited.add( z )
+                Q.append( z )
+                if z in all_upblks or z in method_is_top_level_callee:
+                  if w < 0: top._dag.top_level_callee_constraints.add( (z, method) )
+                  else:     top._dag.top_level_callee_constraints.add( (method, z) )
+
     # Mark update blocks that call blocking methods
     # (CalleeIfcFL/CallerIfcFL) for greenlet wrapping
 
